@@ -22,7 +22,7 @@ from pv.program import Program
 from pv.report import Result, finish
 from pv.mir import sym_str, sym_walk, op_place, pl_local
 from pv.panic import strip_generics
-from pv import x_pipe
+from pv import x_pipe, x_wit
 from pv.x_pipe import callee, where, exits, closure_aggs, consumer_of
 
 PROP = "C35"
@@ -510,11 +510,16 @@ def check_verify_signature(res, P):
 
 def run(tier):
     res = Result(PROP, tier, level="other")
-    P = Program(crates=["pallas_validate"])
+    P = Program(crates=["pallas_validate", "pallas_traverse", "pallas_addresses"])
     M = x_pipe.ErrModel(P)
     table = x_pipe.load_pipelines()
+    accessors = x_wit.tabulate_accessors(P)
+    res.count("MultiEraOutput accessors tabulated", len(accessors))
+    res.floor("MultiEraOutput accessors tabulated", len(accessors), 2)
     n = 0
     judged = 0
+    n_w = n_lists = n_var = 0
+    lists_done = set()
     for era, spec in table["eras"].items():
         if not spec.get("post_byron"):
             continue
@@ -522,8 +527,21 @@ def run(tier):
         keys = {V for r in spec["rules"] if r.get("property") == PROP for V in r["errors"]}
         x_pipe.check_no_discard(res, M, era, spec, keys, PROP)
         n += analyse_era(res, P, M, era, spec)
+        # which witnesses / which inputs (pv/x_wit.py)
+        pipe = P.one("^%s$" % re.escape(spec["pipeline"]))
+        CF = M.closure_fns(pipe)
+        n_lists += x_wit.check_witness_list(res, P, CF, era, lists_done)
+        has_coll = any(v.endswith("::CollateralNotInUTxO") for v in M.mentions(pipe))
+        Ws = x_wit.witness_rule_fns(P, CF, flag_writes)
+        res.floor("vkey-input-witness rule:%s" % era, len(Ws), 1)
+        for W in Ws:
+            n_w += 1
+            x_wit.check_inputs_consumed(res, P, W, era, has_coll)
+            n_var += x_wit.check_output_variants(res, P, W, era, spec.get("utxo_output_variants", []), accessors)
     res.floor("witness error variants judged", judged, 8)
     res.floor("verify_signature call sites", n, 6)
+    res.floor("check-list construction sites", n_lists, 1)
+    res.floor("UTxO output variants judged", n_var, 4)
     check_verify_signature(res, P)
     res.assumptions += ["pallas_crypto::key::ed25519::PublicKey::verify implements Ed25519 verification (C11)",
                         "OriginalHash::original_hash of KeepRaw<TransactionBody> is the transaction id (C05)"]
